@@ -183,14 +183,27 @@ def s9(facts, rep):
             for e in body.succ(sb):
                 if e in cleanup:
                     continue
-                reach = body.reachable([e], cleanup | set(nexts))
+                reach = body.reachable_flags([e], cleanup | set(nexts))
                 if not any(tb in reach for tb in targets) and any(nb in body.reachable([e], cleanup) for nb in nexts):
                     decided = True
         if decided:
             filters.append(b)
+    # the guard of a filter written inline (`while idx < deletions.len() { match key.cmp(&deletions[idx]) .. }`): a branch on
+    # the deletions alone, one edge of which leads to a filter call - when no deletion is left there is nothing to compare
+    guards = []
+    for sb in range(body.n):
+        st = body.term(sb)
+        if st["k"] != "switch" or sb in cleanup:
+            continue
+        roots = _deep_roots(body, st["d"])
+        if not any(is_del(r) for r in roots) or any(is_item(r) for r in roots):
+            continue
+        if any(set(filters) & body.reachable([e], cleanup | set(nexts) | set(targets)) for e in body.succ(sb) if e not in cleanup):
+            guards.append(sb)
+    filters_and_guards = set(filters) | set(guards)
     n = 0
     for nb in nexts:
-        reach = body.reachable(body.succ(nb), cleanup | set(filters) | set(nexts))
+        reach = body.reachable(body.succ(nb), cleanup | filters_and_guards | set(nexts))
         for tb in targets:
             n += 1
             bad = tb in reach
@@ -199,9 +212,9 @@ def s9(facts, rep):
                 # name the item kinds whose arm reaches the completion unfiltered
                 kinds = set()
                 for b in sorted(reach):
-                    if tb in body.reachable([b], cleanup | set(filters) | set(nexts)):
+                    if tb in body.reachable([b], cleanup | filters_and_guards | set(nexts)):
                         kinds |= set(re.findall(r"@(\w*Item)\b", repr(body.stmts(b))))
                 if kinds:
                     path = " (item kind: %s)" % ", ".join(sorted(kinds))
-            rep.check(not bad, "S9", short, "item-filtered-by-overlay-deletions", "in %s a stored item returned by the beatree iterator at %s can become the completed leaf without being checked against the overlay's deletions%s: a key deleted in an uncommitted ancestor is proved / hashed as if it still existed" % (short, body.term(nb).get("ln"), path), site=body.term(nb).get("ln"), detail="every path next() -> LeafData passes one of the %d filter call(s) at bb%s whose result can send the loop back for the next item" % (len(filters), filters))
+            rep.check(not bad, "S9", short, "item-filtered-by-overlay-deletions", "in %s a stored item returned by the beatree iterator at %s can become the completed leaf without being checked against the overlay's deletions%s: a key deleted in an uncommitted ancestor is proved / hashed as if it still existed" % (short, body.term(nb).get("ln"), path), site=body.term(nb).get("ln"), detail="every path next() -> LeafData passes one of the %d filter call(s) at bb%s whose result can send the loop back for the next item (or the filter's own guard on the deletions at bb%s)" % (len(filters), filters, guards))
     return n
